@@ -20,6 +20,10 @@ CLAIMS = {
    technique="symbolic execution of kmer_heuristic.py (forking on equal k-mers), _kmer_finder.pyx (shift-and masks as 64-bit vectors, state-merged) and the aligner into SMT; z3 decides 'prefilter absent => no alignment' and every array bound for all adapters/reads within the bounds",
    text="Bounded model checking of the prefilter against the aligner it guards: match_to of every adapter class (incl. the force-anywhere variants) is executed with kmers_present wrapped so that its symbolic verdict is recorded while the alignment always runs; on every path that returns a match the solver shows the recorded verdict is 'present'. All array reads of kmers_present/shift_and_multiple_is_present carry in-bounds obligations. Adapter (ACGT, or ACGTNRX with adapter wildcards) and read characters are symbolic; class, lengths, rate representative, switches and minimum overlap are enumerated.",
    note=ALIGN_NOTE + " Read alphabet restricted to ACGTNacgtnRYX! (the kernel sees characters only through the match tables). State mutated by a kernel call that raises is not observed afterwards."),
+ "C09": dict(engine="crosshair", design="3 C09",
+   technique="CrossHair (symbolic execution with z3, exhaustive 'Confirmed over all paths') on the real MultipleAdapters/AdapterCutter/LinkedAdapter classes with contract-stub adapters; symbolic scores, error counts, presence flags and match coordinates",
+   text="Bounded symbolic checking of the selection rules on the real classes: best-of-3 (score, then errors, then first), rounds for --times 1..3 x actions x every sequence of match kinds with all match coordinates symbolic, and linked adapters for all four required/optional combinations, each compared with a reference written from the statement. Only 'Confirmed over all paths' with a refuted reachability twin counts.",
+   note="Trusted: CrossHair's models of int/str/list; stub adapters return arbitrary matches satisfying the C01 contract (coordinates inside the given sequence); Rec stands in for dnaio.SequenceRecord; read text is fixed (AcN / ACGTA), coordinates -1..4 / -1..6."),
  "C13": dict(engine="symx", design="3 C13",
    technique="symbolic execution of qualtrim.pyx (Cython parse tree -> merged SMT terms, z3) against a declarative BWA oracle; bounded in read length",
    text="Bounded model checking of the real kernels: for every read length up to the bound the solver decides, for all quality strings, cut-offs, bases and both quality bases, that quality_trim_index/nextseq_trim_index equal the declarative BWA definition; QualityTrimmer/NextseqQualityTrimmer slicing and trimmed_bases are executed from source on top. Not a proof: lengths beyond the bound are outside the claim.",
